@@ -643,7 +643,10 @@ Qed.
 Lemma h2_canonical fs r : front_h2 fs = inr r -> forallb canon_ok (w_fields r) = true.
 Proof.
   unfold front_h2. destruct (negb _); [discriminate|].
-  destruct (bytes_eqb _ s_connect); [discriminate|].
+  destruct (bytes_eqb _ s_connect).
+  { destruct (pseudo_value p_path fs); [|discriminate]. destruct (pseudo_value p_scheme fs); [|discriminate].
+    destruct (pseudo_value p_authority fs); [discriminate|]. intro H. inversion H. cbn [w_fields].
+    apply canon_ok_filter, canon_ok_merge, canon_ok_del_expect, canon_ok_canon_fields. }
   destruct (_ || _ || _); [discriminate|].
   intro H. apply match03 in H. subst r. cbn [w_fields].
   apply canon_ok_filter, canon_ok_merge, canon_ok_del_expect, canon_ok_canon_fields.
@@ -685,11 +688,13 @@ Qed.
 Lemma validate_fields V hd m : validate V hd = inr m -> collect_fields (v_field V) (h_lines hd) = Some (r_fields m).
 Proof.
   unfold validate. destruct (parse_request_line (h_reqline hd)) as [[[me t] p]|]; [|discriminate].
-  destruct (negb (v_method V me)); [discriminate|]. destruct (negb (v_version V p)); [discriminate|].
+  destruct (negb (v_method V me)); [discriminate|]. destruct (max_uri <? blen t); [discriminate|].
+  destruct (negb (v_version V p)); [discriminate|].
   destruct (target_class me t =? 0); [discriminate|]. destruct (target_class me t =? 3); [discriminate|].
-  destruct (h_leadws hd && negb (v_leadws V)); [discriminate|].
+  destruct (h_leadws hd); [discriminate|].
   destruct (collect_fields (v_field V) (h_lines hd)) as [fs|]; [|discriminate].
-  destruct (negb (h_complete hd)); [discriminate|]. destruct (v_frame V fs) as [c|fr]; [discriminate|].
+  destruct (negb (h_complete hd)); [discriminate|]. destruct (negb (v_names V fs)); [discriminate|].
+  destruct (v_frame V fs) as [c|fr]; [discriminate|].
   intro H. inversion H. reflexivity.
 Qed.
 Lemma canon_ok_dedupe f : forall seen h, forallb canon_ok h = true -> forallb canon_ok (dedupe_cl f seen h) = true.
@@ -714,10 +719,7 @@ Proof.
   match goal with |- forallb canon_ok (match get_first s_trailer ?h4 with _ => _ end) = _ =>
     assert (E4 : forallb canon_ok h4 = true) end.
   { destruct fr as [n|].
-    - set (h' := match get_all s_cl h3 with _ :: _ :: _ => dedupe_cl (trim4 (hd [] (get_all s_cl h3))) false h3 | _ => h3 end).
-      assert (E' : forallb canon_ok h' = true).
-      { unfold h'. destruct (get_all s_cl h3) as [|a [|b l]]; try exact E3. apply canon_ok_dedupe. exact E3. }
-      destruct (cl_first (get_all s_cl h3)); [apply canon_ok_filter; exact E'|exact E'].
+    - destruct (get_all s_cl h3) as [|a [|b l]]; try exact E3. apply canon_ok_dedupe. exact E3.
     - apply canon_ok_filter. exact E3. }
   match goal with |- forallb canon_ok (match ?x with _ => _ end) = _ => destruct x end;
     [exact E4|apply canon_ok_filter; exact E4].
@@ -734,11 +736,29 @@ Proof.
   { intro H. exfalso. exact (inl_match98 c r H). }
   pose proof (validate_fields _ _ _ Ev) as Hf. cbn [v_field V_bfe] in Hf.
   pose proof (final_canonical _ (r_framing m) (collect_bfe_canonical _ _ Hf)) as Hc.
-  destruct (h1_ruri (r_target m)); [|discriminate].
+  destruct (h1_ruri (r_method m) (r_target m)); [|discriminate].
   destruct (r_framing m) as [n|].
   - destruct (n =? 0); [intro H; inversion H; exact Hc|].
     destruct (blen (h_rest hd) <? n); [discriminate|]. intro H; inversion H; exact Hc.
   - destruct (read_chunk_list _ _ _); [|discriminate]. intro H; inversion H; exact Hc.
+Qed.
+Lemma attach_canonical t r body r' : attach_body t r body = inr r' ->
+  forallb canon_ok (w_fields r) = true -> forallb canon_ok (w_fields r') = true.
+Proof.
+  unfold attach_body. destruct body as [b|]; [|intro H; inversion H; auto].
+  destruct (bytes_eqb (w_method r) s_head); [discriminate|]. destruct t; [discriminate|].
+  destruct (get_all s_cl (w_fields r)) as [|v l]; [intro H; inversion H; auto|].
+  destruct (bytes_eqb v (dec_of_Z (blen b))); [intro H; inversion H; auto|discriminate].
+Qed.
+Lemma h2b_canonical fs body r : front_h2b fs body = inr r -> forallb canon_ok (w_fields r) = true.
+Proof.
+  unfold front_h2b. destruct (front_h2 fs) as [c|r0] eqn:E; [discriminate|].
+  intro H. apply (attach_canonical _ _ _ _ H). apply (h2_canonical _ _ E).
+Qed.
+Lemma spdyb_canonical ps body r : front_spdyb ps body = inr r -> forallb canon_ok (w_fields r) = true.
+Proof.
+  unfold front_spdyb. destruct (front_spdy ps) as [c|r0] eqn:E; [discriminate|].
+  intro H. apply (attach_canonical _ _ _ _ H). apply (spdy_canonical _ _ E).
 Qed.
 Theorem frontends_canonical i r : accepted i = inr r -> forallb canon_ok (w_fields r) = true.
 Proof.
@@ -746,7 +766,7 @@ Proof.
   repeat match type of H with
          | match ?x with _ => _ end = _ => destruct x; try discriminate
          end;
-    first [exact (h1_canonical _ _ H) | exact (h2_canonical _ _ H) | exact (spdy_canonical _ _ H)].
+    first [exact (h1_canonical _ _ H) | exact (h2b_canonical _ _ _ H) | exact (spdyb_canonical _ _ _ H)].
 Qed.
 
 Theorem C25_central_lemma : forall i,
@@ -759,3 +779,6 @@ Proof.
     + apply (C25_prop_of_model_lemma i r Ha Hs). unfold wf_wreq. rewrite (frontends_canonical i r Ha). exact Hw.
     + rewrite (C25_unsafe_refused_lemma i r Ha Hs). unfold prop_C25, not_modelled. rewrite Ha. reflexivity.
 Qed.
+
+Lemma C25_wf_examples_lemma : wf_C25 ok1 = true /\ wf_C25 ok2 = true /\ wf_C25 ok3 = true /\ wf_C25 ok4 = true /\ wf_C25 w31 = true.
+Proof. repeat split; vm_compute; reflexivity. Qed.
